@@ -23,4 +23,15 @@ theorem C07_narrows_discharged (seg : Seg) (cfg : Cfg) (ext : Ext) (hb : 8 ≤ m
   rw [hnew] at hm
   exact C07_multi_update_narrows_ascii seg (patterns pOld) c t s case norm hasc old hc hupd cfg ext hb (columns it) (hcols it) hm
 
+/-- **the side condition `8 ≤ maxBonus cfg` of the narrowing theorems holds for every configuration the API can build**: the bonus
+    fields of `Config` are crate-private, so a configuration has the values of `Config::DEFAULT`, of `match_paths()` or of
+    `set_match_paths()` (translated from `config.rs` on every run: `Gen/Consts.lean`) -/
+theorem C07_presets_satisfy_bonus_condition (cfg : Cfg)
+    (h : (cfg.white = presetDefault_white ∧ cfg.delim = presetDefault_delim) ∨
+         (cfg.white = presetMatchPaths_white ∧ cfg.delim = presetMatchPaths_delim) ∨
+         (cfg.white = presetSetMatchPaths_white ∧ cfg.delim = presetSetMatchPaths_delim)) :
+    8 ≤ maxBonus cfg := by
+  unfold maxBonus
+  rcases h with ⟨h1, h2⟩ | ⟨h1, h2⟩ | ⟨h1, h2⟩ <;> rw [h1, h2] <;> decide
+
 end NucleoVerif
